@@ -489,8 +489,8 @@ theorem maxOrderOk_sound (p : ℤ) (hp : p ≠ 0) (t : ℤ × List (List ℤ)) (
   split at h
   · rename_i O hO
     simp only [Bool.and_eq_true] at h
-    obtain ⟨a, b, c, d⟩ := isOrderCert_sound p O h.1
-    exact ⟨O, hO, a, b, c, d, hasMaximalDisc_sound p hp O h.2⟩
+    obtain ⟨a, b, c, d⟩ := isOrderCert_sound p O h.1.1
+    exact ⟨O, hO, a, b, c, d, hasMaximalDisc_sound p hp O h.1.2⟩
   · simp at h
 
 /-- `normCovolOk` ⇒ `covol(I) = N(I)²·covol(O)`, i.e. the stored norm is the square root of the index `[O : I]` -/
